@@ -84,7 +84,7 @@ Inductive event :=
 | EKick (uid : Z).                             (* c.Kick(...) scheduled *)
 
 Inductive result :=
-| RAdmitted
+| RAccepted
 | RAuth                (* GetPermission returned an error *)
 | RLocked (m : str)    (* UserError(lock message) *)
 | RNotOpen             (* "this group is not open yet" *)
@@ -201,7 +201,7 @@ Definition add_client_locked (g : group) (now : Z) (j : joiner) : group * out :=
                (mkGroup (g_locked g)
                         (g_clients g ++ [(j_id j, mkClient (j_uid j) isop (j_sys j))])
                         (g_desc g),
-                mkOut RAdmitted (announce j (g_clients g)))
+                mkOut RAccepted (announce j (g_clients g)))
            end
   end.
 
